@@ -114,10 +114,10 @@ class Evidence:
         if a not in self.assumptions:
             self.assumptions.append(a)
 
-    def check_minima(self) -> None:
+    def check_minima(self, exempt: set[str] | None = None) -> None:
         for rule, m in self.minima.items():
             n = self.count(rule)
-            if n < m:
+            if n < m and rule not in (exempt or set()):
                 raise AnalysisError(f"rule {rule} matched {n} < {m} instances (anchor vanished or rule blind)")
 
 
@@ -226,7 +226,10 @@ def run_check(pid: str, fn: Any, tier: str, level: str = "other") -> int:
         ctx = Ctx(tier, progress=bool(os.environ.get("CFDPSA_PROGRESS")))
         ev = Evidence(pid, tier)
         findings: list[Finding] = fn(ctx, ev)
-        ev.check_minima()
+        # a rule that reports a violation not listed as known is not "blind": its shortfall of instances (a violating construct
+        # often ends the rule's walk early) must not turn the violation into an analysis error
+        kk = {(k.get("rule"), k.get("key")) for k in load_known().get("findings", []) if k.get("property") == pid}
+        ev.check_minima(exempt={f.rule for f in findings if (f.rule, f.key) not in kk})
     except AnalysisError as e:
         print(f"ANALYSIS-ERROR property={pid} {e}")
         return 2
